@@ -123,7 +123,7 @@ inductive Phase1 where
 def phase1 (cfg : Cfg) (s0 : Sess) (sc : Script) : Phase1 :=
   let w0 : List Write := [⟨.open_, false⟩]
   match sc.conn with
-  | .dialFail => .stop ⟨.failed true, [], s0, false, false⟩
+  | .dialFail => .stop ⟨.failed false, [], s0, false, false⟩     -- a refused dial can be retried (fix F-13d)
   | .headerFail => .stop ⟨.failed false, w0, s0, false, false⟩
   | .ok =>
     -- NewSession: reuse the session object if there is one
